@@ -13,13 +13,37 @@
 //!   to start; in `on_stop` the agent stops immediately;
 //! * a suspended future's handler is run "as with any other event handler" when it completes.
 //!
+//! Extension (coverage gaps 17/18), from the rustdoc of `HandlerActionExt`, `HandlerContext`,
+//! `join`/`join3`, `Sequentially`, `SideEffects`, `Option<H>` and docs/lifecycle.md:
+//!
+//! * `and_then_contextual` / `and_then_try`: the first action runs to completion (with everything
+//!   it triggers), the function is applied to its result, then the resulting action runs; a
+//!   failing function is a failure of the handler;
+//! * `join`/`join3`/`Sequentially`: the operands run in the order given, a failure ends the whole;
+//! * `Option<H>`: `None` completes at once; `SideEffects` draws its items in order;
+//! * `schedule_timer_event(d, id)`: `on_timer(id)` runs as a handler of its own once `d` has
+//!   elapsed - after the scheduling handler has completed, never inside it; nothing once the agent
+//!   has stopped. Virtual time: the harness advances the paused clock by 2 ms per `Settle`, the
+//!   delays are 0 or odd, so a deadline never coincides with a step of the harness;
+//! * demand lane: `on_cue` "triggers when it is explicitly cued or an external sync request is
+//!   received" - like the handlers of any other lane, nested at the `cue`; demand-map lane:
+//!   `on_cue_key(k)` "triggers each time a key of the map is cued";
+//! * `open_lane(name, on_done)` in `on_start`: the handler made by `on_done` "will be executed when
+//!   the request completes" - a handler of its own after `on_start` (handlers never overlap), in
+//!   the order of the requests, before the agent takes its first command.
+//!
 //! `Policy` isolates the points where the documentation can be read two ways (tolerated either
 //! way, see `main.rs`) and one known deviation of the implementation (reported under its own
 //! signature so that it does not mask everything else).
 
 use std::collections::BTreeMap;
 
-use crate::program::{map_digest, Ev, Event, Input, MapSnap, Node, NodeId, Program, Step, N_MAP, N_VAL};
+use crate::program::{
+    combine2, combine3, map_digest, param_result, try_fails, Ev, Event, Input, Lane, MapSnap, Node, NodeId, Program, Step, N_MAP, N_VAL, PARAM_NAMES, PARAM_ZONE,
+};
+
+/// The route the agent runs at (`get_agent_uri`).
+pub const AGENT_URI: &str = "/node";
 
 #[derive(Clone, Copy, Debug, PartialEq, Eq)]
 pub struct Policy {
@@ -38,10 +62,29 @@ pub struct Policy {
     /// the new value as previous; 3 = on_update never gets a previous value; 4 = a failure in a
     /// resumed suspended handler is not fatal; 5 = value-lane handlers triggered twice.
     pub mutation: u32,
+    /// `and_then_contextual(f)` / `and_then_try(f)`: "the first handler action runs to completion,
+    /// the function is applied to the result". true = the handlers triggered by the first
+    /// action's *last* change have run when the function is applied (the handler "resumes" only
+    /// after them); false = the function is applied in the step in which the first action
+    /// completes, before that last change is reported to the agent - the function sees the state
+    /// before those handlers, and if it fails they never run.
+    pub closure_after_triggers: bool,
+    /// "`on_cue_key`: This triggers each time a key of the map is cued." true = nested at every
+    /// `cue_key`, like the handlers of every other lane; false = only the first `cue_key` of a
+    /// top-level handler runs nested, the others are queued (one entry per key) and their
+    /// `on_cue_key` runs as a handler of its own once the value computed before has been written.
+    pub cue_key_always_nested: bool,
 }
 
 impl Policy {
-    pub const DOCUMENTED: Policy = Policy { same_value_set_triggers: true, clear_empty_triggers: true, external_fail_fatal: true, mutation: 0 };
+    pub const DOCUMENTED: Policy = Policy {
+        same_value_set_triggers: true,
+        clear_empty_triggers: true,
+        external_fail_fatal: true,
+        mutation: 0,
+        closure_after_triggers: true,
+        cue_key_always_nested: true,
+    };
 }
 
 #[derive(Clone, Copy, Debug, PartialEq, Eq)]
@@ -69,6 +112,38 @@ pub struct Stats {
     pub inputs_handled: u64,
     pub suspends: u64,
     pub syncs: u64,
+    // ---- extension ------------------------------------------------------------------------------
+    /// Executions per combinator kind of the extension (keys are `Node::kind()`).
+    pub ext_nodes: BTreeMap<&'static str, u64>,
+    pub try_fn_failed: u64,
+    /// A change whose handlers never ran because the `and_then_try` function failed first
+    /// (`closure_after_triggers == false` only).
+    pub trigger_dropped_by_failed_try: u64,
+    /// The function of `and_then_contextual`/`and_then_try` was applied while the handlers of the
+    /// first action's last change were still to run (only counted when that makes a difference to
+    /// the order, i.e. there was such a change).
+    pub closure_with_pending_trigger: u64,
+    pub opt_none: u64,
+    pub seq_element_failed: u64,
+    pub join_operand_failed: u64,
+    pub timers_scheduled: u64,
+    pub timers_fired: u64,
+    pub timers_dropped_at_stop: u64,
+    /// Two timers were due at the same instant (the case is regenerated: their order is not
+    /// documented).
+    pub timer_ties: u64,
+    pub cues: u64,
+    pub cue_keys: u64,
+    pub cue_keys_deferred: u64,
+    pub cue_keys_coalesced: u64,
+    pub demand_syncs: u64,
+    pub lanes_opened: u64,
+    /// Trace length at the first point where a handler chain that had *lost* the handlers of a
+    /// change (see `trigger_dropped_by_failed_try`) failed and the agent carried on nevertheless
+    /// (`external_fail_fatal == false`). The item then still holds the unreported change; what the
+    /// next handlers of that item are told is outside anything the documentation describes, so
+    /// the run is judged up to here only.
+    pub tainted_at: Option<usize>,
 }
 
 #[derive(Clone, Debug)]
@@ -94,6 +169,21 @@ struct Pending {
     env: i64,
 }
 
+/// The lifecycle handlers owed to a change that has been applied to the state.
+enum Trig {
+    None,
+    Val { lane: u8, v: i64, prev: i64 },
+    Upd { lane: u8, key: i32, prev: Option<i64>, v: i64, map: MapSnap },
+    Rem { lane: u8, key: i32, prev: i64, map: MapSnap },
+    Clr { lane: u8, prev: MapSnap },
+    Cmd2 { v: i64 },
+    Cue,
+    CueKey { key: i32 },
+}
+
+/// Virtual milliseconds the harness lets pass per `Settle`.
+pub const SETTLE_MS: u64 = 2;
+
 struct Machine<'a> {
     prog: &'a Program,
     policy: Policy,
@@ -104,6 +194,21 @@ struct Machine<'a> {
     depth: u32,
     budget: usize,
     stats: Stats,
+    /// Virtual time (ms since the agent started).
+    now: u64,
+    /// Scheduled timers: (deadline, id), in scheduling order.
+    timers: Vec<(u64, u8)>,
+    /// `on_done` handlers of `open_lane` requests made in `on_start`.
+    opened: Vec<(NodeId, NodeId)>,
+    /// Demand-map lane, `cue_key_always_nested == false`: a computed value waits to be written.
+    dm_pending: bool,
+    /// ... and the keys cued meanwhile (one entry per key, in the order first cued).
+    dm_queue: Vec<i32>,
+    /// A change lost its handlers in the handler chain running now.
+    dropped_in_chain: bool,
+    /// ... and the lane has been reported as having something to write since the last write
+    /// (reports made during `on_start` are not kept: the agent is not writing yet).
+    dm_dirty: bool,
 }
 
 fn snap(m: &BTreeMap<i32, i64>) -> MapSnap {
@@ -138,115 +243,234 @@ impl<'a> Machine<'a> {
         r
     }
 
-    fn set_value(&mut self, lane: u8, v: i64) -> Result<(), Abort> {
+    // Every change is split into `apply_*` (the state changes; says which handlers are owed) and
+    // `fire` (runs them, nested in the handler that made the change).
+
+    fn apply_set(&mut self, lane: u8, v: i64) -> Trig {
         let prev = std::mem::replace(&mut self.vals[lane as usize], v);
         if prev == v {
             self.stats.same_value_sets += 1;
             if !self.policy.same_value_set_triggers {
-                return Ok(());
+                return Trig::None;
             }
         }
-        // on_event first, then on_set with the replaced value; both run to completion before the
-        // modifying handler resumes.
-        match self.policy.mutation {
-            1 => {
-                self.triggered(Event::OnSet(lane), Ev::OnSet { lane, new: v, prev: Some(prev) }, v)?;
-                return self.triggered(Event::OnEvent(lane), Ev::OnEvent { lane, new: v }, v);
-            }
-            2 => {
-                self.triggered(Event::OnEvent(lane), Ev::OnEvent { lane, new: v }, v)?;
-                return self.triggered(Event::OnSet(lane), Ev::OnSet { lane, new: v, prev: Some(v) }, v);
-            }
-            5 => {
-                self.triggered(Event::OnEvent(lane), Ev::OnEvent { lane, new: v }, v)?;
-                self.triggered(Event::OnSet(lane), Ev::OnSet { lane, new: v, prev: Some(prev) }, v)?;
-            }
-            _ => {}
-        }
-        self.triggered(Event::OnEvent(lane), Ev::OnEvent { lane, new: v }, v)?;
-        self.triggered(Event::OnSet(lane), Ev::OnSet { lane, new: v, prev: Some(prev) }, v)
+        Trig::Val { lane, v, prev }
     }
 
-    fn update(&mut self, lane: u8, key: i32, v: i64) -> Result<(), Abort> {
+    fn apply_update(&mut self, lane: u8, key: i32, v: i64) -> Trig {
         let mut prev = self.maps[lane as usize].insert(key, v);
         if self.policy.mutation == 3 {
             prev = None;
         }
-        let map = snap(&self.maps[lane as usize]);
-        self.triggered(Event::OnUpdate(lane), Ev::OnUpdate { lane, key, prev, new: v, map }, v)
+        Trig::Upd { lane, key, prev, v, map: snap(&self.maps[lane as usize]) }
     }
 
-    fn remove(&mut self, lane: u8, key: i32) -> Result<(), Abort> {
+    fn apply_remove(&mut self, lane: u8, key: i32) -> Trig {
         match self.maps[lane as usize].remove(&key) {
-            Some(prev) => {
-                let map = snap(&self.maps[lane as usize]);
-                self.triggered(Event::OnRemove(lane), Ev::OnRemove { lane, key, prev, map }, prev)
-            }
+            Some(prev) => Trig::Rem { lane, key, prev, map: snap(&self.maps[lane as usize]) },
             None => {
                 // "Triggered when an entry is removed": nothing was removed.
                 self.stats.remove_absent += 1;
-                Ok(())
+                Trig::None
             }
         }
     }
 
-    fn clear(&mut self, lane: u8) -> Result<(), Abort> {
+    fn apply_clear(&mut self, lane: u8) -> Trig {
         let prev = std::mem::take(&mut self.maps[lane as usize]);
         if prev.is_empty() {
             self.stats.clear_empty += 1;
             if !self.policy.clear_empty_triggers {
-                return Ok(());
+                return Trig::None;
             }
         }
-        let n = prev.len() as i64;
-        self.triggered(Event::OnClear(lane), Ev::OnClear { lane, prev: snap(&prev) }, n)
+        Trig::Clr { lane, prev: snap(&prev) }
+    }
+
+    fn fire(&mut self, t: Trig) -> Result<(), Abort> {
+        match t {
+            Trig::None => Ok(()),
+            Trig::Val { lane, v, prev } => {
+                // on_event first, then on_set with the replaced value; both run to completion
+                // before the modifying handler resumes.
+                match self.policy.mutation {
+                    1 => {
+                        self.triggered(Event::OnSet(lane), Ev::OnSet { lane, new: v, prev: Some(prev) }, v)?;
+                        return self.triggered(Event::OnEvent(lane), Ev::OnEvent { lane, new: v }, v);
+                    }
+                    2 => {
+                        self.triggered(Event::OnEvent(lane), Ev::OnEvent { lane, new: v }, v)?;
+                        return self.triggered(Event::OnSet(lane), Ev::OnSet { lane, new: v, prev: Some(v) }, v);
+                    }
+                    5 => {
+                        self.triggered(Event::OnEvent(lane), Ev::OnEvent { lane, new: v }, v)?;
+                        self.triggered(Event::OnSet(lane), Ev::OnSet { lane, new: v, prev: Some(prev) }, v)?;
+                    }
+                    _ => {}
+                }
+                self.triggered(Event::OnEvent(lane), Ev::OnEvent { lane, new: v }, v)?;
+                self.triggered(Event::OnSet(lane), Ev::OnSet { lane, new: v, prev: Some(prev) }, v)
+            }
+            Trig::Upd { lane, key, prev, v, map } => self.triggered(Event::OnUpdate(lane), Ev::OnUpdate { lane, key, prev, new: v, map }, v),
+            Trig::Rem { lane, key, prev, map } => self.triggered(Event::OnRemove(lane), Ev::OnRemove { lane, key, prev, map }, prev),
+            Trig::Clr { lane, prev } => {
+                let n = prev.len() as i64;
+                self.triggered(Event::OnClear(lane), Ev::OnClear { lane, prev }, n)
+            }
+            Trig::Cmd2 { v } => self.triggered(Event::Command2, Ev::Command2 { arg: v }, v),
+            Trig::Cue => self.triggered(Event::OnCue, Ev::OnCue, 0),
+            Trig::CueKey { key } => {
+                if self.policy.cue_key_always_nested {
+                    return self.triggered(Event::OnCueKey, Ev::OnCueKey { key }, key as i64);
+                }
+                // The other reading: one value at a time. A key cued while a computed value is
+                // still to be written is queued (one entry per key).
+                self.dm_dirty = true;
+                if !self.dm_queue.contains(&key) {
+                    self.dm_queue.push(key);
+                } else {
+                    self.stats.cue_keys_coalesced += 1;
+                }
+                if self.dm_pending {
+                    self.stats.cue_keys_deferred += 1;
+                    return Ok(());
+                }
+                let first = self.dm_queue.remove(0);
+                self.depth += 1;
+                self.stats.max_depth = self.stats.max_depth.max(self.depth);
+                self.stats.depth_hist[(self.depth as usize).min(9)] += 1;
+                let r = self.cue_key_one_at_a_time(first);
+                self.depth -= 1;
+                r
+            }
+        }
+    }
+
+    /// `on_cue_key` under the reading `cue_key_always_nested == false`: the value counts as
+    /// computed (and waiting to be written) as soon as the handler's own last step is done -
+    /// before the handlers owed to a change made by that last step have run.
+    fn cue_key_one_at_a_time(&mut self, key: i32) -> Result<(), Abort> {
+        self.log(Ev::OnCueKey { key })?;
+        let owed = match self.prog.table.get(&Event::OnCueKey).copied() {
+            Some(root) => self.exec_inner(root, key as i64, true)?.1,
+            None => Trig::None,
+        };
+        self.dm_pending = true;
+        self.fire(owed)
+    }
+
+    fn set_value(&mut self, lane: u8, v: i64) -> Result<(), Abort> {
+        let t = self.apply_set(lane, v);
+        self.fire(t)
+    }
+
+    fn update(&mut self, lane: u8, key: i32, v: i64) -> Result<(), Abort> {
+        let t = self.apply_update(lane, key, v);
+        self.fire(t)
+    }
+
+    fn remove(&mut self, lane: u8, key: i32) -> Result<(), Abort> {
+        let t = self.apply_remove(lane, key);
+        self.fire(t)
+    }
+
+    fn clear(&mut self, lane: u8) -> Result<(), Abort> {
+        let t = self.apply_clear(lane);
+        self.fire(t)
     }
 
     fn exec(&mut self, id: NodeId, env: i64) -> Result<i64, Abort> {
-        match self.prog.node(id) {
+        self.exec_inner(id, env, false).map(|(r, _)| r)
+    }
+
+    /// A modifying leaf: in `tail` mode the handlers it owes are handed back instead of run.
+    fn modified(&mut self, r: i64, t: Trig, tail: bool) -> Result<(i64, Trig), Abort> {
+        if tail {
+            Ok((r, t))
+        } else {
+            self.fire(t)?;
+            Ok((r, Trig::None))
+        }
+    }
+
+    /// The first operand of `and_then_contextual` / `and_then_try`, up to the point where the
+    /// function is applied. Documented reading: everything the operand triggers has run. Other
+    /// reading (`closure_after_triggers == false`): the handlers owed to the operand's *last*
+    /// change (a change made by its final step) are still to run.
+    fn first_operand(&mut self, a: NodeId, env: i64) -> Result<(i64, Trig), Abort> {
+        let (r, t) = self.exec_inner(a, env, !self.policy.closure_after_triggers)?;
+        if !matches!(t, Trig::None) {
+            self.stats.closure_with_pending_trigger += 1;
+        }
+        Ok((r, t))
+    }
+
+    /// Execute a tree. `tail`: the handlers owed to a change made by the *final* step of the tree
+    /// are not run but returned (used only for the non-documented reading of `first_operand`).
+    fn exec_inner(&mut self, id: NodeId, env: i64, tail: bool) -> Result<(i64, Trig), Abort> {
+        let node = self.prog.node(id);
+        if !matches!(
+            node,
+            Node::Effect
+                | Node::GetValue(_)
+                | Node::GetMap(_)
+                | Node::SetValue(..)
+                | Node::Update(..)
+                | Node::Remove(..)
+                | Node::Clear(_)
+                | Node::Command2(_)
+                | Node::Fail
+                | Node::Stop
+                | Node::Suspend(_)
+                | Node::FollowedBy(..)
+                | Node::AndThen(..)
+        ) {
+            *self.stats.ext_nodes.entry(node.kind()).or_insert(0) += 1;
+        }
+        let plain = |r: i64| Ok((r, Trig::None));
+        match node {
             Node::Effect => {
                 self.log(Ev::Effect { node: id })?;
-                Ok(env)
+                plain(env)
             }
             Node::GetValue(lane) => {
                 let v = self.vals[lane as usize];
                 self.log(Ev::Get { node: id, lane, v })?;
-                Ok(v)
+                plain(v)
             }
             Node::GetMap(lane) => {
                 let map = snap(&self.maps[lane as usize]);
                 let d = map_digest(&map);
                 self.log(Ev::GetMap { node: id, lane, map })?;
-                Ok(d)
+                plain(d)
             }
             Node::SetValue(lane, e) => {
                 let v = e.eval(env);
                 self.log(Ev::Set { node: id, lane, v })?;
-                self.set_value(lane, v)?;
-                Ok(v)
+                let t = self.apply_set(lane, v);
+                self.modified(v, t, tail)
             }
             Node::Update(lane, k, e) => {
                 let (key, v) = (k.eval(env), e.eval(env));
                 self.log(Ev::Update { node: id, lane, key, v })?;
-                self.update(lane, key, v)?;
-                Ok(v)
+                let t = self.apply_update(lane, key, v);
+                self.modified(v, t, tail)
             }
             Node::Remove(lane, k) => {
                 let key = k.eval(env);
                 self.log(Ev::Remove { node: id, lane, key })?;
-                self.remove(lane, key)?;
-                Ok(env)
+                let t = self.apply_remove(lane, key);
+                self.modified(env, t, tail)
             }
             Node::Clear(lane) => {
                 self.log(Ev::Clear { node: id, lane })?;
-                self.clear(lane)?;
-                Ok(env)
+                let t = self.apply_clear(lane);
+                self.modified(env, t, tail)
             }
             Node::Command2(e) => {
                 let v = e.eval(env);
                 self.log(Ev::Cmd2 { node: id, v })?;
-                self.triggered(Event::Command2, Ev::Command2 { arg: v }, v)?;
-                Ok(v)
+                self.modified(v, Trig::Cmd2 { v }, tail)
             }
             Node::Fail => {
                 self.log(Ev::Fail { node: id })?;
@@ -262,15 +486,120 @@ impl<'a> Machine<'a> {
                 self.log(Ev::Suspend { node: id })?;
                 self.stats.suspends += 1;
                 self.pending.push(Pending { node: id, child, env });
-                Ok(env)
+                plain(env)
             }
             Node::FollowedBy(a, b) => {
                 self.exec(a, env)?;
-                self.exec(b, env)
+                self.exec_inner(b, env, tail)
             }
             Node::AndThen(a, b) => {
                 let r = self.exec(a, env)?;
-                self.exec(b, r)
+                self.exec_inner(b, r, tail)
+            }
+            // ---- extension: the other documented combinators -----------------------------------
+            Node::AndThenCtx(a, lane, b) => {
+                let (r, owed) = self.first_operand(a, env)?;
+                // The function is applied: it reads the item from the agent it is given.
+                let v = self.vals[lane as usize];
+                self.fire(owed)?;
+                self.log(Ev::CtxRead { node: id, lane, v })?;
+                self.exec_inner(b, r, tail)
+            }
+            Node::AndThenTry(a, modulus, b) => {
+                let (r, owed) = self.first_operand(a, env)?;
+                if try_fails(modulus, r) {
+                    // "returns an error if the function fails".
+                    self.stats.try_fn_failed += 1;
+                    self.stats.fails_reached += 1;
+                    if !matches!(owed, Trig::None) {
+                        self.stats.trigger_dropped_by_failed_try += 1;
+                        self.dropped_in_chain = true;
+                    }
+                    // (A key that was cued stays queued although its report was lost.)
+                    if let Trig::CueKey { key } = owed {
+                        if !self.policy.cue_key_always_nested && !self.dm_queue.contains(&key) {
+                            self.dm_queue.push(key);
+                        }
+                    }
+                    return Err(Abort::Fail);
+                }
+                self.fire(owed)?;
+                self.exec_inner(b, r, tail)
+            }
+            Node::Join(a, b) => {
+                let x = self.exec(a, env).inspect_err(|e| self.stats.join_operand_failed += matches!(e, Abort::Fail) as u64)?;
+                let (y, t) = self.exec_inner(b, env, tail).inspect_err(|e| self.stats.join_operand_failed += matches!(e, Abort::Fail) as u64)?;
+                Ok((combine2(x, y), t))
+            }
+            Node::Join3(a, b, c) => {
+                let x = self.exec(a, env).inspect_err(|e| self.stats.join_operand_failed += matches!(e, Abort::Fail) as u64)?;
+                let y = self.exec(b, env).inspect_err(|e| self.stats.join_operand_failed += matches!(e, Abort::Fail) as u64)?;
+                let (z, t) = self.exec_inner(c, env, tail).inspect_err(|e| self.stats.join_operand_failed += matches!(e, Abort::Fail) as u64)?;
+                Ok((combine3(x, y, z), t))
+            }
+            Node::Opt(None) => {
+                self.stats.opt_none += 1;
+                plain(env)
+            }
+            Node::Opt(Some(c)) => self.exec_inner(c, env, tail),
+            Node::Effects(n) => {
+                for i in 0..n {
+                    self.log(Ev::EffectItem { node: id, i })?;
+                }
+                plain(env.wrapping_add(n as i64))
+            }
+            Node::Seq(i) => {
+                // "runs a sequence of event handlers"; an element that fails ends the sequence.
+                let children = self.prog.seqs[i as usize].clone();
+                let mut owed = Trig::None;
+                for (j, c) in children.iter().enumerate() {
+                    let last = j + 1 == children.len();
+                    let (_, t) = self.exec_inner(*c, env, tail && last).inspect_err(|e| self.stats.seq_element_failed += matches!(e, Abort::Fail) as u64)?;
+                    owed = t;
+                }
+                Ok((env, owed))
+            }
+            Node::GetParam(name) => {
+                let value = match PARAM_NAMES[name as usize] {
+                    "id" => Some(self.prog.param_id.to_string()),
+                    "zone" => Some(PARAM_ZONE.to_string()),
+                    _ => None,
+                };
+                let r = param_result(&value);
+                self.log(Ev::Param { node: id, name, value })?;
+                plain(r)
+            }
+            Node::WithParams => {
+                let pid = self.prog.param_id;
+                self.log(Ev::Params { node: id, n: 2, id: pid })?;
+                plain(2000 + pid)
+            }
+            Node::GetUri => {
+                self.log(Ev::Uri { node: id, uri: AGENT_URI.to_string() })?;
+                plain(env)
+            }
+            Node::Timer { delay, id: timer } => {
+                self.log(Ev::TimerSet { node: id, id: timer, delay })?;
+                self.stats.timers_scheduled += 1;
+                self.timers.push((self.now + delay as u64, timer));
+                plain(env)
+            }
+            // ---- extension: other lane kinds ----------------------------------------------------
+            Node::Cue => {
+                self.log(Ev::Cue { node: id })?;
+                self.stats.cues += 1;
+                self.modified(env, Trig::Cue, tail)
+            }
+            Node::CueKey(k) => {
+                let key = k.eval(env);
+                self.log(Ev::CueKey { node: id, key })?;
+                self.stats.cue_keys += 1;
+                self.modified(env, Trig::CueKey { key }, tail)
+            }
+            Node::OpenLane(child) => {
+                self.log(Ev::OpenLane { node: id })?;
+                self.opened.push((id, child));
+                plain(env)
             }
         }
     }
@@ -285,6 +614,12 @@ impl<'a> Machine<'a> {
             Input::Upd { lane, k, v } => self.update(lane, k, v),
             Input::Rem { lane, k } => self.remove(lane, k),
             Input::Clr { lane } => self.clear(lane),
+            // A demand lane has no state: "triggers when it is explicitly cued or an external
+            // sync request is received".
+            Input::Sync(Lane::Dem) => {
+                self.stats.demand_syncs += 1;
+                self.fire(Trig::Cue)
+            }
             // No state change: no lifecycle handler.
             Input::Sync(_) => {
                 self.stats.syncs += 1;
@@ -293,7 +628,7 @@ impl<'a> Machine<'a> {
         }
     }
 
-    fn fire(&mut self, i: usize) -> Option<Result<(), Abort>> {
+    fn fire_gate(&mut self, i: usize) -> Option<Result<(), Abort>> {
         if self.pending.is_empty() {
             return None;
         }
@@ -307,11 +642,79 @@ impl<'a> Machine<'a> {
 }
 
 /// What the loop over the script does after a top-level handler ended.
+#[derive(Clone, Copy, PartialEq, Eq)]
 enum Next {
     Continue,
     Shutdown,
     Dead,
     Overflow,
+}
+
+impl<'a> Machine<'a> {
+    /// `external`: the handler was started by a command frame from a remote.
+    fn classify(&mut self, r: Result<(), Abort>, external: bool) -> Next {
+        let dropped = std::mem::take(&mut self.dropped_in_chain);
+        if dropped && matches!(r, Err(Abort::Fail)) && external && !self.policy.external_fail_fatal && self.stats.tainted_at.is_none() {
+            self.stats.tainted_at = Some(self.trace.len());
+        }
+        match r {
+            Ok(()) => Next::Continue,
+            Err(Abort::Stop) => Next::Shutdown,
+            Err(Abort::Budget) => Next::Overflow,
+            Err(Abort::Fail) => {
+                if (external && !self.policy.external_fail_fatal) || (!external && self.policy.mutation == 4) {
+                    self.stats.fails_swallowed += 1;
+                    Next::Continue
+                } else {
+                    Next::Dead
+                }
+            }
+        }
+    }
+
+    /// After a top-level handler (`cue_key_always_nested == false` only): the computed value is
+    /// written, then the keys cued meanwhile get their `on_cue_key`, one value at a time, each as
+    /// a handler of its own.
+    fn after_top_level(&mut self, mut next: Next) -> Next {
+        if !std::mem::take(&mut self.dm_dirty) {
+            return next;
+        }
+        while next == Next::Continue && self.dm_pending {
+            self.dm_pending = false;
+            if self.dm_queue.is_empty() {
+                break;
+            }
+            let key = self.dm_queue.remove(0);
+            let r = self.cue_key_one_at_a_time(key);
+            // (Reported again as having something to write by the handler itself.)
+            next = self.classify(r, false);
+        }
+        next
+    }
+
+    /// The harness lets `ms` of virtual time pass with the agent quiescent: the timers that become
+    /// due run in the order of their deadlines, each `on_timer` as a handler of its own.
+    fn advance(&mut self, ms: u64) -> Next {
+        let target = self.now + ms;
+        let mut next = Next::Continue;
+        while next == Next::Continue {
+            let Some(deadline) = self.timers.iter().map(|t| t.0).filter(|d| *d <= target).min() else { break };
+            let due: Vec<usize> = (0..self.timers.len()).filter(|i| self.timers[*i].0 == deadline).collect();
+            if due.len() > 1 {
+                self.stats.timer_ties += 1;
+            }
+            let (_, id) = self.timers.remove(due[0]);
+            self.now = self.now.max(deadline);
+            self.stats.timers_fired += 1;
+            let r = self.handler(Event::Timer(id), Ev::OnTimer { id: id as u64 }, id as i64);
+            next = self.classify(r, false);
+            next = self.after_top_level(next);
+        }
+        if next == Next::Continue {
+            self.now = target;
+        }
+        next
+    }
 }
 
 pub fn run(prog: &Program, script: &[Step], policy: Policy, budget: usize) -> RefRun {
@@ -325,58 +728,88 @@ pub fn run(prog: &Program, script: &[Step], policy: Policy, budget: usize) -> Re
         depth: 0,
         budget,
         stats: Stats::default(),
+        now: 0,
+        timers: vec![],
+        opened: vec![],
+        dm_pending: false,
+        dm_queue: vec![],
+        dm_dirty: false,
+        dropped_in_chain: false,
     };
-    let done = |m: Machine, end: End, overflow: bool| {
+    let done = |mut m: Machine, end: End, overflow: bool| {
         let failed_at = if end == End::Failed { Some(m.trace.len()) } else { None };
+        m.stats.timers_dropped_at_stop = m.timers.len() as u64;
         RefRun { trace: m.trace, end, stats: m.stats, overflow, failed_at }
     };
-    match m.handler(Event::Start, Ev::Start, 0) {
+    // on_start, then the handlers of the `open_lane` requests it made (still part of starting:
+    // a failure or `stop` there fails the start as well).
+    let mut started = m.handler(Event::Start, Ev::Start, 0);
+    if started.is_ok() {
+        for (node, child) in std::mem::take(&mut m.opened) {
+            m.stats.lanes_opened += 1;
+            started = (|| {
+                m.log(Ev::LaneOpened { node })?;
+                m.exec(child, 0).map(|_| ())
+            })();
+            if started.is_err() {
+                break;
+            }
+        }
+    }
+    match started {
         Ok(()) => {}
         Err(Abort::Fail) => return done(m, End::Failed, false),
         Err(Abort::Stop) => return done(m, End::FailedToStart, false),
         Err(Abort::Budget) => return done(m, End::Clean, true),
     }
-    let mut next = Next::Continue;
-    // `external`: the handler was started by a command frame from a remote.
-    let classify = |m: &mut Machine, r: Result<(), Abort>, external: bool| match r {
-        Ok(()) => Next::Continue,
-        Err(Abort::Stop) => Next::Shutdown,
-        Err(Abort::Budget) => Next::Overflow,
-        Err(Abort::Fail) => {
-            if (external && !m.policy.external_fail_fatal) || (!external && m.policy.mutation == 4) {
-                m.stats.fails_swallowed += 1;
-                Next::Continue
-            } else {
-                Next::Dead
-            }
-        }
-    };
-    'script: for step in script {
-        match *step {
-            Step::Settle => {}
-            Step::Send(input) => {
-                let r = m.input(input);
-                next = classify(&mut m, r, true);
-            }
-            Step::Fire(i) => {
-                if let Some(r) = m.fire(i as usize) {
-                    next = classify(&mut m, r, false);
+    // (Other reading of `cue_key` only: what was reported during the start is not written.)
+    m.dm_dirty = false;
+    // The harness waits for quiescence before it attaches the remote.
+    let mut next = m.advance(SETTLE_MS);
+    if next == Next::Continue {
+        'script: for step in script {
+            match *step {
+                Step::Settle => next = m.advance(SETTLE_MS),
+                Step::Send(input) => {
+                    let r = m.input(input);
+                    // (The known deviation concerns command frames only; a sync request can only
+                    // fail in the `on_cue` it triggers, and that is fatal as documented.)
+                    next = m.classify(r, !matches!(input, Input::Sync(_)));
+                    next = m.after_top_level(next);
                 }
-            }
-            Step::FireAll(n) => {
-                for _ in 0..n {
-                    match m.fire(0) {
-                        Some(r) => next = classify(&mut m, r, false),
-                        None => break,
-                    }
-                    if !matches!(next, Next::Continue) {
-                        break;
+                Step::Fire(i) => {
+                    if let Some(r) = m.fire_gate(i as usize) {
+                        next = m.classify(r, false);
+                        next = m.after_top_level(next);
                     }
                 }
+                Step::FireAll(n) => {
+                    for _ in 0..n {
+                        match m.fire_gate(0) {
+                            Some(r) => {
+                                next = m.classify(r, false);
+                                next = m.after_top_level(next);
+                            }
+                            None => break,
+                        }
+                        if next == Next::Continue {
+                            next = m.advance(SETTLE_MS);
+                        }
+                        if next != Next::Continue {
+                            break;
+                        }
+                    }
+                }
+            }
+            if next != Next::Continue {
+                break 'script;
             }
         }
-        if !matches!(next, Next::Continue) {
-            break 'script;
+        // The harness settles twice before it asks the agent to stop.
+        for _ in 0..2 {
+            if next == Next::Continue {
+                next = m.advance(SETTLE_MS);
+            }
         }
     }
     match next {
